@@ -325,6 +325,53 @@ func VerifC13EchoRdb() {
 	verifReach("echo.rdb.done")
 }
 
+// VerifC13EchoLarge: a source transaction of ECHOLARGE (2100) commands - larger than any buffer or
+// batching threshold a parser or sender may keep - committed by link A->B through the real
+// execBisyncUnit and read back by link B->A's real parser from B's replication stream: no unit comes
+// back, and a client write behind it does.
+func VerifC13EchoLarge() {
+	verifClockNs = 1700000000000000000
+	mode := config.ReplayModeSync
+	siteB := verifNewFake()
+	ab := verifBisyncLink(siteB, "redis-gunyu-checkpoint-bisync:aa01", mode)
+	n := verifParam("ECHOLARGE", 2100)
+	sym := verifBytes("val", 1)
+	var stream []byte
+	stream = append(stream, verifResp([]byte("MULTI"))...)
+	for i := 0; i < n; i++ {
+		v := []byte("v")
+		if i == n/2 {
+			v = sym
+		}
+		stream = append(stream, verifResp([]byte("SET"), []byte("user:"+verifItoa(int64(i%7))), v)...)
+	}
+	stream = append(stream, verifResp([]byte("EXEC"))...)
+	units, _ := verifParseUnits(ab, stream, 1000)
+	verifAssert(len(units) == 1 && len(units[0].Commands) == n, "C13.foreign.command-count")
+	if len(units) != 1 {
+		return
+	}
+	mark := len(siteB.log)
+	_, _, err := ab.execBisyncUnit(siteB, "rid1", units[0], true)
+	verifAssert(err == nil, "C13.echo.commit-error")
+	if err != nil {
+		return
+	}
+	back := verifPropagate(siteB.log, mark, false)
+	tail := [][]byte{[]byte("SET"), []byte("user:t"), verifBytes("tval", 1)}
+	back = append(back, verifResp(tail...)...)
+	ba := verifBisyncLink(verifNewFake(), "redis-gunyu-checkpoint-bisync:bb02", mode)
+	echo, perr := verifParseUnits(ba, back, 5000)
+	verifAssert(perr == nil || errors.Is(perr, io.EOF), "C13.echo.parser-error")
+	verifAssert(len(echo) <= 1, "C13.echo.own-write-sent-back")
+	verifAssert(len(echo) >= 1, "C13.foreign.suppressed-after-own-traffic")
+	if len(echo) == 1 {
+		g := echo[0].Commands
+		verifAssert(len(g) == 1 && g[0].Cmd == "set" && len(g[0].Args) == 2 && bytes.Equal(g[0].Args[1], tail[2]), "C13.foreign.command-altered")
+	}
+	verifReach("echo.large.done")
+}
+
 // ---------------------------------------------------------------------------
 // C18: cluster-mode units are single-slot or refused.
 
